@@ -33,7 +33,7 @@ package rfc8009
 //@   pure
 //@   trusted_frame returned slices are not tracked as fresh; in-place append into spare capacity cannot be excluded
 //@   requires tagof(e) == typeid("crypto.Aes128CtsHmacSha256128") || tagof(e) == typeid("crypto.Aes256CtsHmacSha384192")
-//@   ensures err == nil ==> len(lastRandom) == et_confounder(tagof(e)) && bytes(ct) == enc_8009(tagof(e), bytes(key), usage, seqcat(lastRandom, bytes(message)))
+//@   ensures err == nil ==> len(lastRandom) == et_confounder(tagof(e)) && bytes(ct) == enc_8009(tagof(e), old(bytes(key)), usage, seqcat(lastRandom, old(bytes(message))))
 //@ func crypto/rfc8009.VerifyIntegrity(key, ct, usage, e) (ok)
 //@   pure
 //@   requires tagof(e) == typeid("crypto.Aes128CtsHmacSha256128") || tagof(e) == typeid("crypto.Aes256CtsHmacSha384192")
@@ -83,4 +83,8 @@ package rfc8009
 //@ func crypto/rfc8009.GetIntegityHash(iv, c, key, usage, e) (h, err)
 //@   pure
 //@   trusted_frame returned slices are not tracked as fresh; in-place append into spare capacity cannot be excluded
+//@   requires et_known(tagof(e))
+//@   ensures err == nil ==> len(h) == et_hmacbits(tagof(e)) / 8 && bytes(h) == simplified_cksum(tagof(e), old(bytes(key)), usage_const(usage, 0x55), seqcat(old(bytes(iv)), old(bytes(c))))
+//@   ensures err != nil ==> len(h) == 0
+//@   trusted_ensures 0 not discharged: append(iv, c...) may write into spare capacity of iv before the key is read, so the clause needs iv and key not to share a backing array (the library passes a freshly made IV)
 //@   requires tagof(e) == typeid("crypto.Aes128CtsHmacSha256128") || tagof(e) == typeid("crypto.Aes256CtsHmacSha384192")
